@@ -207,7 +207,7 @@ def run_case(seed):
     def count(k):
         dist[k] = dist.get(k, 0) + 1
 
-    pf = gen.gen_plotfile(rng, allow_repeat=True, max_blocks=2, payload=rng.choice(['ints', 'random']), awkward=0.3, odd0=0.25, odd_names=0.25)
+    pf = gen.gen_plotfile(rng, allow_repeat=True, max_blocks=2, payload=rng.choice(['ints', 'random']), awkward=0.3, odd0=0.25, odd_names=0.25, domain_first=0.2)
     extra_ratio = rng.choice([0, 0, 1, 2])
     path = core.scratch_dir(f"c02_{seed}")
     htext, ctexts = write_from_model(pf, path, model, rng, extra_ratio)
@@ -284,6 +284,30 @@ def run_case(seed):
     return out
 
 
+def huge_offset_case(_):
+    """a binary file above 2 GiB (sparse): the offsets the reader exposes are the ones the level header states"""
+    from amr_kitchen import PlotfileCooker
+    out = dict(evals=1, keys=[core.khash('huge-offset')], dist={'case=binary file above 2 GiB': 1}, samples=[], violations=[], disagreements=[])
+    path = os.path.join(core.scratch_dir('c02_huge'), 'plt_big')
+    os.makedirs(os.path.dirname(path))
+    pf, off1, small = gen.write_huge_offset_plotfile(path)
+    desc = dict(case='binary file of 2 GiB + (sparse), second box at offset %d' % off1, case_fn='huge_offset_case', seed=0)
+    for maxmins in (False, True):
+        res = core.outcome(lambda: PlotfileCooker(path, maxmins=maxmins))
+        if res[0] != 'ok':
+            out['violations'].append(dict(desc, kind='open-raised', what='opening a well-formed plotfile raised: ' + res[1]))
+            return out
+        pck = res[1]
+        got = ([int(o) for o in pck.cells[0]['offsets']], [os.path.basename(str(f)) for f in pck.cells[0]['files']],
+               [[list(map(int, lo)), list(map(int, hi))] for lo, hi in pck.cells[0]['indexes']])
+        want = ([0, off1], ['Cell_D_00000', 'Cell_D_00000'], [[list(lo), list(hi)] for lo, hi in pf.levels[0].boxes])
+        if got != want:
+            out['violations'].append(dict(desc, kind='wrong-metadata',
+                                          what=f"exposed metadata differs from what the headers state: offsets / files / index ranges {got} instead of {want}"))
+            return out
+    return out
+
+
 def run(tier, seed):
     rep = core.Report(PID, tier, seed)
     pg = core.proof_gate(PID, thorough=(tier == 'thorough'))
@@ -295,6 +319,8 @@ def run(tier, seed):
     ncases = 40 if tier == 'quick' else 500
     cases = [seed * 100000 + 2000 + i for i in range(ncases)]
     for r in core.run_cases(run_case, core.with_corpus(PID, cases)):
+        rep.merge(r)
+    for r in core.run_cases(huge_offset_case, [0]):
         rep.merge(r)
     rep.obligation('correspondence: TextHeader.print_* = generator writer (token for token)',
                    not any(v[0].get('kind') == 'printer' for v in rep.violations))
